@@ -393,6 +393,11 @@ func checkR02a(p *Prog, r *Report) {
 			if _, ok := r02aExempt["*|"+full]; ok {
 				continue
 			}
+			if full == "File.Decls" && fileDeclsReadElsewhere(c.p, g.f) {
+				// a pass that only emits (file comment, then the already translated units in order) next to a pass
+				// that translates: the declarations are read there; that both passes cover every unit is R04c/R04g
+				continue
+			}
 			missing = append(missing, fld)
 		}
 		var rd []string
@@ -422,4 +427,22 @@ func checkR02a(p *Prog, r *Report) {
 		})
 	}
 	r.Check("R02a", "no case of the translator accepts *ast.LabeledStmt", token.NoPos, !labeled, "labeled statements are accepted somewhere, so BranchStmt.Label carries meaning and must be read")
+}
+
+// fileDeclsReadElsewhere: some other function of the translator reads ast.File.Decls.
+func fileDeclsReadElsewhere(p *Prog, not *ssa.Function) bool {
+	found := false
+	for _, f := range p.FuncsIn(Mod) {
+		if f == not {
+			continue
+		}
+		p.instrs(f, func(b *ssa.BasicBlock, i int, in ssa.Instruction) {
+			if fa, ok := in.(*ssa.FieldAddr); ok {
+				if o, fld, ok := fieldOf(fa); ok && o.Obj().Name() == "File" && o.Obj().Pkg() != nil && o.Obj().Pkg().Path() == "go/ast" && fld == "Decls" {
+					found = true
+				}
+			}
+		})
+	}
+	return found
 }
